@@ -37,7 +37,8 @@ PROPS = {
     "C19": dict(
         rules=[R("memory", "rule_build_diff", "arc"), R("memory", "rule_sibling_api", "arc"),
                R("memory", "rule_atomic", "arc"), R("borrow", "rule_borrow_arc", "arc"),
-               R("memory", "rule_snapshot_writeback", "arc"), R("borrow", "rule_recursive_read", "arc")],
+               R("memory", "rule_snapshot_writeback", "arc"), R("borrow", "rule_recursive_read", "arc"),
+               R("borrow", "rule_len_then_index", "arc")],
         clause="The two runtimes are the same program outside the pointer/cell module: every shared function has the same "
                "callee multiset, branch count and arity in the rc and the arc build modulo the Rc/Arc, RefCell/RwLock "
                "renaming (R-BUILD-DIFF), and ptr_impl::{rc,arc} are siblings with non-blocking try_* variants "
@@ -45,7 +46,7 @@ PROPS = {
                "build); no single container operation establishes a fact under one lock acquisition and acts on it under "
                "another (R-ATOMIC); no operation overwrites a whole container with a stale copy of itself "
                "(R-SNAPSHOT-WRITEBACK) or asks for a second read lock on a container whose read lock it holds "
-               "(R-RECURSIVE-READ). Not decided: linearizability, lost-update freedom in general, behaviour of operations "
+               "(R-RECURSIVE-READ). a panicking index on a shared list's data never uses an index validated against a separate `len()` acquisition (R-LEN-THEN-INDEX). Not decided: linearizability, lost-update freedom in general, behaviour of operations "
                "that run user callbacks.",
         technique="cross-configuration fact diff (two cargo feature sets) + guard live-range / lock re-acquisition "
                   "analysis on the arc build",
@@ -53,13 +54,16 @@ PROPS = {
     "C17": dict(
         rules=[R("dispatch", "rule_metakey_tables"), R("dispatch", "rule_dispatch_refs"), R("dispatch", "rule_dispatch_order"),
                R("dispatch", "rule_obj_defaults"), R("dispatch", "rule_dispatch_operands"), R("arith", "rule_rem_zero"),
-               R("dispatch", "rule_base_walk")],
+               R("dispatch", "rule_base_walk"), R("vm", "rule_barrier_frame"), R("vm", "rule_unpack_once"),
+               R("vm", "rule_reg_distinct")],
         clause="The metakey tables are total and name-preserving end to end (R-METAKEY-TABLES); each operator function "
                "references only its own metakeys and object methods and applies its own number operation (R-DISPATCH-REFS); "
                "the arm priority equals the documented order with each metamap arm guarded by its own key "
                "(R-DISPATCH-ORDER); a function found under `@r…` runs with the right operand as its instance (R-DISPATCH-OPERANDS); KotoObject defaults report unimplemented or derive as documented (R-OBJ-DEFAULTS); "
                "`x % y` and `x %= y` agree on the zero-divisor guard (R-REM-ZERO); the loops that climb the `@base` chain look "
-               "entries up in the map they have climbed to (R-BASE-WALK). Not decided: lookup order through @meta/@base, results of "
+               "entries up in the map they have climbed to (R-BASE-WALK); the execution barrier is only set on a frame the call "
+               "really pushed (R-BARRIER-FRAME); packed call arguments are unpacked once (R-UNPACK-ONCE); no operation is handed the same register for two "
+               "operands (R-REG-DISTINCT). Not decided: lookup order through @meta/@base, results of "
                "overloaded operators, operands of host-object calls.",
         technique="table reconstruction from HIR arm lists and MIR aggregates; per-function reference census",
     ),
@@ -87,14 +91,16 @@ PROPS = {
     ),
     "C16": dict(
         rules=[R("tc", "rule_tc_flag"), R("tc", "rule_tc_pure"), R("tc", "rule_tc_null_first"),
-               R("placeholder", "rule_placeholder"), R("placeholder", "rule_match_target")],
+               R("placeholder", "rule_placeholder"), R("placeholder", "rule_match_target"),
+               R("tc", "rule_tc_hint_sibling")],
         level="proof",
         clause="Second sentence as a closed non-interference argument: the enable_type_checks flag is read once and guards "
                "only the emission of the assert instructions with their span (R-TC-FLAG); the VM's handling of a passing "
                "assertion is effect-free (R-TC-PURE); `?` admits null before any type-name handling (R-TC-NULL-FIRST); "
                "jump offsets are relative and patched after emission (R-PLACEHOLDER), so removing the assert instructions "
                "cannot change any other instruction's effect. A failed type pattern of a match arm is routed by the alternative's "
-               "position like every other pattern (R-MATCH-TARGET). Not decided: that a check fires exactly when the type name "
+               "position like every other pattern (R-MATCH-TARGET); every binding routine that reads the hint of `x: T` reads the "
+               "hint of `_: T` too (R-TC-HINT-SIBLING). Not decided: that a check fires exactly when the type name "
                "mismatches.",
         technique="field-read census + control-dependence region analysis + call-graph effect closure (proof obligations)",
     ),
@@ -154,7 +160,7 @@ PROPS = {
                R("arith", "rule_num_wrap"), R("narrow", "rule_narrow"), R("narrow", "rule_vm_regs"),
                R("narrow", "rule_cursor"), R("front", "rule_column_bytes"), R("strings", "rule_slice_tail"),
                R("narrow", "rule_stale_index"), R("strings", "rule_conv_unwrap"), R("narrow", "rule_sign_index"),
-               R("strings", "rule_bounds_order")],
+               R("strings", "rule_bounds_order"), R("vm", "rule_barrier_frame"), R("vm", "rule_unpack_once")],
         clause="Panic families visible in code shape: a RefCell guard of a shared container held across re-entrant or "
                "aliasing code (R-BORROW); script-supplied i64 values reaching overflow-/zero-/shift-checked arithmetic "
                "with no dominating guard of the needed kind (R-ARITH, R-REM-ZERO); digit accumulators in input-driven "
@@ -167,7 +173,7 @@ PROPS = {
                "container inside a loop that runs user callbacks (R-STALE-INDEX); an unwrapped value-dependent conversion "
                "(char::from_u32, to_digit, try_from) is dominated by a test that makes it succeed (R-CONV-UNWRAP); a signed script value is cast to usize only "
                "when provably non-negative (R-SIGN-INDEX); an unwrapped with_bounds(start..end) has ordered bounds by "
-               "construction (R-BOUNDS-ORDER). Not decided: panic-freedom in general (unwrap/index sites justified by data "
+               "construction (R-BOUNDS-ORDER). the execution barrier is only set on a frame the call really pushed (R-BARRIER-FRAME: `Empty call stack` panic) and packed call arguments are unpacked once (R-UNPACK-ONCE: slice panic). Not decided: panic-freedom in general (unwrap/index sites justified by data "
                "invariants are out of scope and counted as undecided where met).",
         technique="guard live-range dataflow over MIR x whole-workspace call graph (CHA + callback-through-bounds "
                   "edges); Assert-terminator census with dominating-guard classification; interval analysis of byte-width "
@@ -235,11 +241,12 @@ PROPS = {
     ),
     "C18": dict(
         rules=[R("vm", "rule_import"), R("vm", "rule_import_once"), R("vm", "rule_resolve_order"),
-               R("compiler", "rule_force_export")],
+               R("compiler", "rule_force_export"), R("vm", "rule_module_canon"), R("vm", "rule_export_id")],
         clause="run_import rolls back on every failing path (R-IMPORT) and orders lookup -> placeholder -> module run, "
                "with the in-progress edge reaching only an error exit (R-IMPORT-ONCE); `name.koto` is tested before "
                "`name/main.koto` (R-RESOLVE-ORDER); with top-level exporting on, no export of an assigned id hinges on the "
-               "explicit `export` flag alone (R-FORCE-EXPORT). Not decided: behaviour over "
+               "explicit `export` flag alone (R-FORCE-EXPORT); the module cache key is a canonicalized path (R-MODULE-CANON); "
+               "an import is exported under the id it was bound to (R-EXPORT-ID). Not decided: behaviour over "
                "arbitrary module graphs, resolution order, export visibility.",
         technique="MIR path and dominance rules on KotoVm::run_import; reachability under a flag hypothesis (pruned CFG) "
                   "with interprocedural flag evaluation over the compiler's export sites",
